@@ -19,6 +19,7 @@
                      (= continue) for the ok kind;
      [evaluate_predicates es loc]  what the code returns, [None] = continue. *)
 From Koreo Require Import Json Outcome ErrScan Predicates ErrScan_proofs Predicates_proofs.
+From Koreo Require Import Predicates_gen Predicates_sync.
 Local Open Scope list_scope.
 
 (* "when every assertion evaluates to a boolean, the first false one alone decides - its
@@ -114,6 +115,15 @@ Theorem C13_unevaluable_is_permfail : forall r loc,
   exists o, evaluate_predicates_raw r loc = Some o /\ ErrScan_proofs.names_loc loc o.
 Proof. exact ErrScan_proofs.evaluate_predicates_failed. Qed.
 
+(* The tie to the code, as a proof obligation: the model of predicate_to_koreo_result ([p2k], the
+   function every theorem above reasons about through [evaluate_predicates]) is equal to the
+   transcription of that function regenerated from src/koreo/predicate_helpers.py on every run
+   (gen/Predicates_gen.v, harness/translate_predicates.py): same case order, same keys, same outcome
+   class, message, delay and location in every arm, every arm returns. *)
+Theorem C13_p2k_is_transcription_of_code : forall loc ps,
+  p2k loc ps = p2k_gen loc ps.
+Proof. exact p2k_is_transcription. Qed.
+
 (* non-vacuity: a 4-element list (a passing skip whose message FAILS, a false retry, a false
    permFail, a passing ok) meets the hypotheses of C13_first_false_decides and the result is
    the retry; a function with these preconditions returns it without evaluating locals or
@@ -156,3 +166,4 @@ Print Assumptions C13_vf_body_not_evaluated.
 Print Assumptions C13_rf_cluster_not_touched.
 Print Assumptions C13_rf_post_body_not_evaluated.
 Print Assumptions C13_unevaluable_is_permfail.
+Print Assumptions C13_p2k_is_transcription_of_code.
